@@ -368,13 +368,13 @@ class KlongInterpreter():
         k = i
         while True:
             ii,c = kg_read(t, i, ignore_newline=True, module=self.current_module())
-            if safe_eq(c, ';'):
+            if is_token(c, ';'):
                 i = ii
                 if k == i - 1:
                     arr.append(None)
                 k = i
                 continue
-            elif safe_eq(c,')'):
+            elif is_token(c, ')'):
                 if k == ii - 1:
                     arr.append(None)
                 break
@@ -424,7 +424,7 @@ class KlongInterpreter():
         i,a = kg_read_array(t, i, self._backend, ignore_newline=ignore_newline, module=self.current_module())
         if a is None:
             return i,a
-        if safe_eq(a, '{'): # read fn
+        if is_token(a, '{'): # read fn
             i,a = self.prog(t, i, ignore_newline=True)
             a = a[0] if len(a) == 1 else a
             i = skip(t, i, ignore_newline=True)
@@ -458,10 +458,10 @@ class KlongInterpreter():
             else:
                 i, aa = self._expr(t, i, ignore_newline=ignore_newline)
                 a = KGFn(a, aa, arity=1)
-        elif safe_eq(a, '('):
+        elif is_token(a, '('):
             i,a = self._expr(t, i, ignore_newline=ignore_newline)
             i = cexpect(t, i, ')')
-        elif safe_eq(a, ':['):
+        elif is_token(a, ':['):
             return read_cond(self, t, i)
         return i, a
 
@@ -476,14 +476,14 @@ class KlongInterpreter():
 
         """
         i, a = self._factor(t, i, ignore_newline=ignore_newline)
-        if a is None or safe_eq(a, ';'):
+        if a is None or is_token(a, ';'):
             return i,a
         ii, aa = kg_read(t, i, ignore_newline=ignore_newline, module=self.current_module())
         if self._is_dyad(aa):
             aa.arity = 2
-        while isinstance(aa,(KGOp,KGSym)) or safe_eq(aa, '{'):
+        while isinstance(aa,(KGOp,KGSym)) or is_token(aa, '{'):
             i = ii
-            if safe_eq(aa, '{'): # read fn
+            if is_token(aa, '{'): # read fn
                 i,aa = self.prog(t, i, ignore_newline=True)
                 aa = aa[0] if len(aa) == 1 else aa
                 i = skip(t, i, ignore_newline=True)
@@ -522,11 +522,11 @@ class KlongInterpreter():
         arr = []
         while i < len(t):
             i, q = self._expr(t,i, ignore_newline=ignore_newline)
-            if q is None or safe_eq(q, ';'):
+            if q is None or is_token(q, ';'):
                 continue
             arr.append(q)
             ii, c = kg_read(t, i, ignore_newline=ignore_newline, module=self.current_module())
-            if c != ';':
+            if not is_token(c, ';'):
                 break
             i = ii
         return i, arr
